@@ -551,6 +551,27 @@ func runC15(r *evid.Run) {
 			}
 		}
 	}
+	// wildcard sources of three and four components whose first wildcard component is selective: the union of the matches
+	{
+		T := fsmodel.T0
+		f := func(p string, i int) fsmodel.Node {
+			return fsmodel.Node{Path: p, Kind: fsmodel.File, Perm: 0644, Mtime: T + int64(i), Data: []byte("S:" + p)}
+		}
+		dd := func(p string) fsmodel.Node { return fsmodel.Node{Path: p, Kind: fsmodel.Dir, Perm: 0755, Mtime: T} }
+		mono := fsmodel.Tree{dd("svc-a"), dd("svc-a/config"), f("svc-a/config/a.yaml", 1), f("svc-a/config/n.txt", 2), dd("svc-a/lib"), f("svc-a/lib/util.lock", 3),
+			dd("svc-b"), dd("svc-b/config"), f("svc-b/config/b.yaml", 4), dd("svc-b/config/deep"), f("svc-b/config/deep/c.yaml", 5), dd("other"), dd("other/config"), f("other/config/o.yaml", 6),
+			dd("services"), dd("services/svc-c"), dd("services/svc-c/config"), f("services/svc-c/config/c.yaml", 7), f("top.yaml", 8)}
+		mono.Sort()
+		for _, sa := range []string{"svc-*/config/*.yaml", "svc-*/*/*.lock", "svc-?/config/*", "*/config/*.yaml", "services/svc-*/config/*.yaml", "svc-*/config/deep/*.yaml", "s*/*/*/*.yaml", "svc-*/config"} {
+			for _, d := range []fsmodel.Tree{nil, {dd("out")}} {
+				for _, da := range []string{"/", "out", "out/", "new/"} {
+					for o := 0; o < 4; o++ {
+						cases = append(cases, c15Case{Src: mono, Dst: d, SrcArg: sa, DstArg: da, DirC: o&1 != 0, Repl: o&2 != 0, Wild: true})
+					}
+				}
+			}
+		}
+	}
 	r.Set("cases", len(cases))
 	r.Set("trees", len(srcs))
 	par.Do(len(cases), par.Workers(), func(i int) {
